@@ -66,7 +66,8 @@ def run_case(rng, idx, tier):
     mixed = (sA["kind"] in SPECIAL) != (sB["kind"] in SPECIAL) and not (sA["kind"] in PRIM and sB["kind"] in PRIM)
     if mixed:
         ev["mixed_pairs"] += 1
-    key0 = {"cls": cls.split("+")[0], "pair": "%s|%s" % (O.base_kind(sA), O.base_kind(sB))}
+    key0 = {"cls": cls.split("+")[0], "pair": "%s|%s" % (O.base_kind(sA), O.base_kind(sB)),
+            "max_aspect": O.aspect_bucket(max(O.aspect(sA), O.aspect(sB)))}
     rec = {"cls": "%s|%s|%s|%s" % (names[0], names[1], cls, forced), "nontrivial": cls not in ("free", "far"),
            "sig": repr(pairs.describe(sA, sB, cls, truth)), "sample": pairs.describe(sA, sB, cls, truth)}
     if inconcl:
@@ -81,7 +82,8 @@ def run_case(rng, idx, tier):
         if not np.isfinite(val):
             viol.append({"key": dict(k, kind="non-finite"), "err": None, "msg": "%s returned %r" % (fn, val)})
         elif e > TOL:
-            viol.append({"key": dict(k, kind="wrong-distance", sign="too-large" if over > under else "too-small"), "err": float(e),
+            viol.append({"key": dict(k, kind="wrong-distance", sign="too-large" if over > under else "too-small",
+                                     returned_zero=bool(val == 0.0)), "err": float(e),
                          "msg": "%s(%s,%s) [%s] = %.9g, truth in [%.9g, %.9g] (off by %.3g*L)" % (fn, names[0], names[1], cls, val, lb, ub, e)})
 
     # ---- original
